@@ -455,6 +455,22 @@ def rule_r3(ctx):
             ctx.check("R3", inst, ok, f, w.stmt,
                       "input tuple is replaced without removing the old value's use and adding the new one's",
                       how="_remove_usage(old) and _add_usage(new) under `is not None` guards only")
+            # aliasing: old and new may be the same value, and both calls then address the same
+            # (node, index) key — the removal has to come first or the surviving use is deleted
+            if ok:
+                cfg = CFG(f.node)
+                for r in rems:
+                    for a in adds:
+                        if [norm(x) for x in r.args] != [norm(x) for x in a.args]:
+                            continue
+                        rn, an = cfg.nodes_containing(r), cfg.nodes_containing(a)
+                        guarded = any(" is not " in norm(g.test) and norm(r.func.value) in norm(g.test) and norm(a.func.value) in norm(g.test)
+                                      for g in _enclosing_ifs(a) + _enclosing_ifs(r))
+                        before = bool(rn and an) and not _reaches(cfg, an[0], rn[0])
+                        ctx.check("R3", f"{f.local}: {norm(r)} precedes {norm(a)}", before or guarded, f, a,
+                                  "the new value's use is added before the old value's use is removed under the same "
+                                  "(node, index) key: when both are the same value the surviving use is deleted",
+                                  how="no path runs the add and then the remove (or the two are guarded by `old is not new`)")
     # (b) Graph._nodes mutators pair with node.graph
     graph_cls = repo.cls(_G)
     for f in graph_cls.methods.values():
@@ -534,6 +550,21 @@ def rule_r3(ctx):
                 ctx.check("R3", inst, ok, f, w.stmt,
                           "outputs grow by values not constructed with this node as producer",
                           how="appended values are Value(self, index=…)")
+
+
+def _enclosing_ifs(node):
+    out = []
+    p = getattr(node, "_parent", None)
+    while p is not None and not isinstance(p, ast.FunctionDef):
+        if isinstance(p, ast.If):
+            out.append(p)
+        p = getattr(p, "_parent", None)
+    return out
+
+
+def _reaches(cfg, a, b) -> bool:
+    """b is reachable from a on normal edges."""
+    return b.id in cfg.reachable_from(a, exc=False)
 
 
 def stmt_parent_if(node):
